@@ -154,3 +154,48 @@ CASES.setdefault("children_text_bound_ident", [dict(id="bound-ident-child", opti
 CASES.setdefault("fragment_name_rule", [dict(id="_Fragment-before-<>", source="import { Fragment as _Fragment } from 'vue'; const a = <_Fragment>a{b}</_Fragment>;", forbid=[r"default:\s*\(\)\s*=>"])])
 CASES.setdefault("tagframe_alias_text", [dict(id="_Fragment-before-<>", source="import { Fragment as _Fragment } from 'vue'; const a = <_Fragment>a{b}</_Fragment>;", forbid=[r"default:\s*\(\)\s*=>"])])
 CASES.setdefault("regex_visit_invalid_str", [dict(id="invalid-pattern", options=dict(customElementPatterns=["("]), source="const a = <div />;", allow_bad_options=True)])
+
+
+# ---- more families (children, hints, spread placement, dedupe, constness, option injection, imports) ----
+CASES.setdefault("children_none", [dict(id="no-children", source="const a = <div></div>;", expect=[r"_createVNode\(\"div\", null, null\)"])])
+CASES.setdefault("children_empty_expr", [dict(id="only-a-comment-child", source="const a = <div>{/* c */}</div>;", expect=[r"_createVNode\(\"div\", null, null\)"])])
+for _h in ("hints_no_dynamic_props", "hints_one_dynamic_prop", "hints_two_dynamic_props", "hints_list_absent"):
+    CASES.setdefault(_h, [dict(id="no-hints-without-optimize", options=dict(optimize=False), source="const a = <div id={x} class={c} />;", forbid=[r"null,\s*\d+"]),
+                          dict(id="hints-with-optimize", options=dict(optimize=True), source="const a = <div id={x} title={t} />;", expect=[r"null,\s*8,\s*\[\s*\"id\",\s*\"title\"\s*\]"])])
+for _h in ("optframe_class", "optframe_on", "optframe_listener", "optframe_other"):
+    CASES.setdefault(_h, [dict(id="props-same-with-and-without-optimize-" + str(o), options=dict(optimize=o), source="const a = <div id={x} class={c} onFoo={f} />;", expect=[r"\"id\": x,\s*\"class\": c,\s*\"onFoo\": f"]) for o in (True, False)])
+CASES.setdefault("step_dir_html", [dict(id="v-html", options=O, source="const a = <div v-html={x} />;", expect=[r"\"innerHTML\": x", r"8,\s*\[\s*\"innerHTML\"\s*\]"])])
+CASES.setdefault("step_dir_text", [dict(id="v-text", options=O, source="const a = <div v-text={x} />;", expect=[r"\"textContent\": x", r"8,\s*\[\s*\"textContent\"\s*\]"])])
+CASES.setdefault("step_dir_normal", [dict(id="custom-directive", options=O, source="const a = <div v-foo={x} />;", expect=[r"null, null, 512\)", r"_resolveDirective\(\"foo\"\),\s*x"])])
+CASES.setdefault("step_flagfinal", [dict(id="ref-only", options=O, source="const a = <div ref={r} />;", expect=[r"null,\s*512\)"])])
+CASES.setdefault("step_finalize", [dict(id="ref-only", options=O, source="const a = <div ref={r} />;", expect=[r"null,\s*512\)"]), dict(id="spread", options=O, source="const a = <div class={c} {...x} />;", expect=[r",\s*16\)"])])
+for _h in ("step_spread_expr_prev_merge", "step_spread_expr_merge", "asm_merge_and_props", "asm_two_merge", "asm_two_merge_and_props"):
+    CASES.setdefault(_h, [dict(id="props-then-spread-mergeProps", source="const a = <div id=\"a\" {...x} b={y} />;", expect=[r"_mergeProps\(\{\s*\"id\": \"a\"\s*\},\s*x,\s*\{\s*\"b\": y\s*\}\)"])])
+for _h in ("step_spread_expr_prev_nomerge", "step_spread_expr_nomerge"):
+    CASES.setdefault(_h, [dict(id="props-then-spread-no-mergeProps", options=dict(mergeProps=False), source="const a = <div id=\"a\" {...x} b={y} />;", expect=[r"\"id\": \"a\",\s*\.\.\.x,\s*\"b\": y"])])
+for _h in ("step_spread_object_nomerge", "step_spread_object_prev_nomerge"):
+    CASES.setdefault(_h, [dict(id="object-spread-no-mergeProps", options=dict(mergeProps=False, optimize=True), source="const a = <div id=\"a\" {...{ k: v }} />;", expect=[r"\"id\": \"a\",\s*k: v", r",\s*16\)"])])
+for _h in ("step_spread_object_merge", "step_spread_object_prev_merge"):
+    CASES.setdefault(_h, [dict(id="object-spread-mergeProps", options=dict(optimize=True), source="const a = <div id=\"a\" {...{ k: v }} />;", expect=[r"_mergeProps\(\{\s*\"id\": \"a\"\s*\},\s*\{\s*k: v\s*\}\)", r",\s*16\)"])])
+CASES.setdefault("asm_lone_spread", [dict(id="lone-spread", source="const a = <div {...x} />;", expect=[r"_createVNode\(\"div\", x, null\)"])])
+CASES.setdefault("asm_none", [dict(id="no-attrs", source="const a = <div />;", expect=[r"_createVNode\(\"div\", null, null\)"])])
+for _h in ("dedupe_class_twice", "dedupe_class_thrice"):
+    CASES.setdefault(_h, [dict(id="class-twice", source="const a = <div class=\"a\" class={b} />;", expect=[r"\"class\": \[\s*\"a\",\s*b\s*\]"])])
+CASES.setdefault("dedupe_plain_twice", [dict(id="id-twice", source="const a = <div id=\"a\" id=\"b\" />;", expect=[r"\{\s*\"id\": \"a\"\s*\}"])])
+for _h in ("isconst_k3_w0", "isconst_k4_w0", "isconst_k2_w0", "isconst_value_kinds"):
+    CASES.setdefault(_h, [dict(id="constant-values-are-not-dynamic", options=O, source="const a = <div id={\"s\"} n={1} u={undefined} />;", expect=[r"_createVNode\(\"div\", \{[^}]*\}, null\)"])])
+for _h in ("isconst_k0_w0", "isconst_k1_w0", "isconst_k5_w0", "isconst_k6_w0", "isconst_k1_w1", "isconst_k0_w1", "isconst_k5_w1", "isconst_k0_w2", "isconst_k1_w2", "isconst_k3_w4", "isconst_k3_w5"):
+    CASES.setdefault(_h, [dict(id="non-constant-values-are-dynamic", options=O, source="const a = <div a={x} b={f()} c={o.p} d={[1, x]} e={[...\"s\"]} />;", expect=[r"8,\s*\[\s*\"a\",\s*\"b\",\s*\"c\",\s*\"d\",\s*\"e\"\s*\]"])])
+CASES.setdefault("inject_no_options", [dict(id="no-options", syntax="tsx", options=RT, source=dc(""), expect=[r"\{\s*props:\s*\{\s*a:"])])
+CASES.setdefault("inject_spread_args", [dict(id="spread-args", syntax="tsx", options=RT, source="import { defineComponent } from 'vue'; const rest = []; defineComponent((p: { a: string }) => {}, ...rest);", forbid=[r"props:\s*\{\s*a:"])])
+CASES.setdefault("import_vue_aliased", [dict(id="aliased-import", syntax="tsx", options=RT, source="import { defineComponent as dc } from 'vue'; dc((p: { a: string }) => {});", forbid=[r"props:\s*\{\s*a:"])])
+CASES.setdefault("import_other_module", [dict(id="other-module", syntax="tsx", options=RT, source="import { defineComponent } from 'other'; defineComponent((p: { a: string }) => {});", forbid=[r"props:\s*\{\s*a:"])])
+CASES.setdefault("import_vue_named", [dict(id="vue-import", syntax="tsx", options=RT, source="import { defineComponent } from 'vue'; defineComponent((p: { a: string }) => {});", expect=[r"props:\s*\{\s*a:"])])
+CASES.setdefault("wrap_object_slots", [dict(id="v-slots-object", source="const a = <Comp v-slots={{ foo: f }}>x</Comp>;", expect=[r"default:\s*\(\)\s*=>\s*\[[\s\S]*\],\s*foo: f"])])
+CASES.setdefault("wrap_expr_slots", [dict(id="v-slots-ident", source="const a = <Comp v-slots={s}>x</Comp>;", expect=[r"default:\s*\(\)\s*=>\s*\[[\s\S]*\],\s*\.\.\.s"])])
+CASES.setdefault("wrap_no_slots", [dict(id="text-child-of-component", options=O, source="const a = <Comp>x</Comp>;", expect=[r"default:\s*\(\)\s*=>", r"_: 1"])])
+CASES.setdefault("slot_flag_stack_fill", [dict(id="nested-bound-ident", options=O, source="const x = 1; const a = <A><B>t{x}</B></A>;", expect=[r"_: 2[\s\S]*_: 2"])])
+for _h, (_t, _e) in {"rt1_array": ("string[]", "Array"), "rt1_tuple": ("[string, number]", "Array"), "rt1_fn": ("() => void", "Function"), "rt1_paren": ("(number)", "Number"),
+                     "rt_keywords": ("bigint", "BigInt"), "rt_literals": ("'a'", "String"), "rtb_date": ("Date", "Date"), "rtb_uppercase": ("Uppercase<'a'>", "String"), "rtb_parameters": ("Parameters<F>", "Array")}.items():
+    CASES.setdefault(_h, [dict(id="prop-type-" + _e, syntax="tsx", options=RT, source="import { defineComponent } from 'vue'; defineComponent((p: { a: %s }) => {});" % _t, expect=[r"type:\s*%s\b" % _e])])
+CASES.setdefault("step_vmodel_computed_elem", [dict(id="computed-arg-element", source="const a = <input v-model={[v, arg]} />;", expect=[r"\"onUpdate:\" \+ arg"])])
